@@ -299,3 +299,50 @@ func verifNewInst(b *verifB) *verifInst {
 func verifPushTask(ch chan *taskTrace, t *taskTrace) { ch <- t }
 
 func (inst *verifInst) count(k string) int64 { return inst.visits[k] }
+
+// ---------------------------------------------------------------------------- sinks and tokens
+// verifSink replaces a downstream node: it records the visit and consumes the token.
+type verifSink struct {
+	elem schema.FlowNodeInterface
+	hits *int64
+}
+
+func (s *verifSink) NextAction(ctx context.Context, flow Flow) chan IAction {
+	verifAdd(s.hits, 1)
+	ch := make(chan IAction, 1)
+	verifPushAction(ch, noAction{})
+	return ch
+}
+func (s *verifSink) Element() schema.FlowNodeInterface { return s.elem }
+
+func verifPushAction(ch chan IAction, a IAction) { ch <- a }
+
+func (inst *verifInst) elem(nid string) schema.FlowNodeInterface {
+	e, found := inst.defs.ProcessField[0].FindBy(schema.ExactId(nid).And(schema.ElementInterface((*schema.FlowNodeInterface)(nil))))
+	if !found {
+		verifAssert(false, "harness: element not found")
+		return nil
+	}
+	return e.(schema.FlowNodeInterface)
+}
+
+// sinkAt replaces the node registered for element nid by a sink counting into hits
+func (inst *verifInst) sinkAt(nid string, hits *int64) {
+	inst.proc.flowNodeMapping.mapping[nid] = &verifSink{elem: inst.elem(nid), hits: hits}
+}
+
+func (inst *verifInst) nodeAt(nid string) IFlowNode {
+	n, _ := inst.proc.flowNodeMapping.ResolveElementToFlowNode(inst.elem(nid))
+	return n
+}
+
+// tokenAt starts a real flow goroutine positioned at node nid (as if it had just arrived there)
+func (inst *verifInst) tokenAt(nid string, viaFlow string) *flow {
+	p := inst.proc
+	fl := newFlow(inst.defs, inst.nodeAt(nid), p.subTracer, p.flowNodeMapping, &p.flowWaitGroup, p.idGenerator, nil, p.locator)
+	if viaFlow != "" {
+		fl.sequenceFlowId = &viaFlow
+	}
+	fl.Start(inst.ctx)
+	return fl
+}
